@@ -192,4 +192,6 @@ static std::string slice_probe()
     return o.str();
 }
 
+VH_STARTUP_PROBE(slice_probe)
+
 int main(int argc, char **argv) { vh::g_decoy = true; vh::g_probe = slice_probe; return run_main(argc, argv, dispatch); }
